@@ -120,6 +120,27 @@ def run_deductive(prop, tier, seed, report):
         "assumed_contracts_used": sorted(eng.used_assumptions),
         "repo_contracts_not_verified": unverified,
     }
+    if prop == "C06":
+        # order-insensitivity obligations: one per ordered consumption of a set anywhere in the package
+        from pyvc.order import analyse
+        from contracts.order_sites import ORDER_JUSTIFICATIONS
+        sites = analyse(eng.repo, ORDER_JUSTIFICATIONS)
+        order_open = []
+        counts = {}
+        for i, s_ in enumerate(sites):
+            n_ob += 1
+            name = f"order@{s_.func.split('::')[-1]}#{s_.text[:60]}"
+            if s_.verdict == "open":
+                order_open.append((name, s_))
+            else:
+                n_dis += 1
+                kind = s_.verdict.split(":")[0]
+                by_solver["order-" + kind] = by_solver.get("order-" + kind, 0) + 1
+                if len(samples) < 12:
+                    samples.append({"obligation": name, "kind": "order", "line": s_.line, "solver": s_.verdict, "clause": s_.why[:120]})
+        report["_order_open"] = order_open
+        report["deductive"].update({"obligations": n_ob, "discharged": n_dis, "by_solver": by_solver,
+                                    "order_sites": len(sites), "order_justified_sites_trusted": sum(1 for s_ in sites if s_.verdict.startswith("justified"))})
     report["samples"] = samples
     report["_engine"] = eng
     report["_failed"] = failed
@@ -222,6 +243,11 @@ def main(argv=None):
             violations.append((name, path, " no-failing-input-found"))
         else:
             undecided.append({"obligation": name, "verdict": r["verdict"], "reason": "not in ledger and no witness found"})
+    for name, s_ in report.get("_order_open", []):
+        path = write_replay(prop, name, {"property": prop, "obligation": name, "function": s_.func, "line": s_.line, "site": s_.text,
+                                         "consumer": s_.consumer, "witness": None,
+                                         "note": "a set is consumed in iteration order here and neither an order-insensitivity rule nor a recorded justification applies"})
+        violations.append((name, path, " no-failing-input-found"))
     # ---- functions that left the subset: bounded stand-in decides
     bounded = []
     for k, rep in sorted(funcs.items()):
